@@ -27,9 +27,8 @@ RULE = ("enumerated part 'table': (schema, node, unit, prefix, form, case) and n
         "exponents, signs, leading '.') and checks value, linearity and the bare-number clause. Non-trivial = spelling "
         "differs from the unit's declared name (plural, case change, prefixed) or is a negative case.")
 ASSUMPTIONS = ["relative tolerance 1e-9 for float comparison of converted values",
-               "units whose declared name contains a blank ('degree Celsius', deprecated) and deprecated units are "
-               "not enumerated as positives; plural of 'hertz' is 'hertz'; no plural is asserted for 'lb', 'uV', "
-               "'degree-Celsius'",
+               "deprecated units are not enumerated as positives; plural of 'hertz' is 'hertz'; no plural is asserted for "
+               "'lb', 'uV', 'degree-Celsius', 'degree Celsius'",
                "no bundled tag uses a prefix-type unit class (currencyUnits is not referenced by any tag), so the "
                "'$ before the number' clause has no instance in the enumerated domain"]
 
@@ -118,7 +117,7 @@ def case_variants(s):
 def positives(tb, node):
     """(unit_text, unit, prefix, attrs, nontrivial) for every accepted spelling in the enumerated domain."""
     for cls, u, attrs in tb.units_for(node):
-        if "deprecatedFrom" in attrs or " " in u or "unitPrefix" in attrs:
+        if "deprecatedFrom" in attrs or "unitPrefix" in attrs:
             continue
         for spelled, mod, exact in tb.forms(u, attrs):
             for txt in ([spelled] if exact else case_variants(spelled)):
